@@ -68,6 +68,20 @@ def rresizeSpec (room : Bool) (bombs : List Id) (xs : List Id) (newLen : Nat) (v
         | .panic d => .panic d,
       rest := o }
 
+def rresizeWithSpec (room : Bool) (bombs : List Id) (xs : List Id) (newLen : Nat) (o : List Outcome) : SpecOut Unit :=
+  if newLen > xs.length then rextendCloneSpecR room xs (newLen - xs.length) o
+  else { rtruncateSpec bombs xs newLen with rest := o }
+
+/-- `pop_if(pred)` looks at the FIRST element -/
+def rpopIfSpec (xs : List Id) (o : List Outcome) : SpecOut (Option Id) :=
+  match xs, o with
+  | [], o => { final := [], exit := .ret none, rest := o }
+  | x :: rest, [] => { final := x :: rest, exit := .panic false, rest := [] }
+  | x :: rest, .panic :: o => { final := x :: rest, exit := .panic false, rest := o }
+  | x :: rest, .ret b :: o =>
+    if b ≠ 0 then { final := rest, escaped := [x], exit := .ret (some x), rest := o }
+    else { final := x :: rest, exit := .ret none, rest := o }
+
 /-- `append(other)`: `other` ends up IN FRONT -/
 def rappendSpec (room : Bool) (xs ys : List Id) : SpecOut Unit :=
   if room then { final := ys ++ xs, exit := .ret (), rest := [] }
